@@ -61,18 +61,28 @@ S('c04-struct-replaced-by-from-bytes', 'C04', F,
   'R4-strict-decode')
 S('c04-find-assert-dropped', 'C04', F,
   '''        count = search_buffer.find(until_marker)
-        assert count >= 0
+        if count < 0:
+            raise Exception("The delimiter %r was not found" % (until_marker, ))
 ''', '''        count = search_buffer.find(until_marker)
+''', 'R4-strict-decode')
+S('c04-find-check-as-assert', 'C04', F,
+  '''        count = search_buffer.find(until_marker)
+        if count < 0:
+            raise Exception("The delimiter %r was not found" % (until_marker, ))
+''', '''        count = search_buffer.find(until_marker)
+        assert count >= 0
 ''', 'R4-strict-decode')
 S('c04-find-assert-weakened', 'C04', F,
   '''        count = search_buffer.find(until_marker)
-        assert count >= 0
+        if count < 0:
 ''', '''        count = search_buffer.find(until_marker)
-        assert count >= -1
+        if count < -1:
 ''', 'R4-strict-decode')
 S('c04-regex-nomatch-takes-rest', 'C04', F,
   '''            else:
-                assert False
+                raise Exception(
+                    "The delimiter %r was not found" % (until_marker.pattern, )
+                )
 
         next_offset = offset + count''',
   '''            else:
@@ -114,10 +124,11 @@ B('c04-benign-rename-locals', 'C04', F,
         return end''')
 B('c04-benign-assert-as-if-raise', 'C04', F,
   '''        count = search_buffer.find(until_marker)
-        assert count >= 0
-''', '''        count = search_buffer.find(until_marker)
         if count < 0:
-            raise Exception("marker not found")
+            raise Exception("The delimiter %r was not found" % (until_marker, ))
+''', '''        count = search_buffer.find(until_marker)
+        if not count >= 0:
+            raise Exception("The delimiter %r was not found" % (until_marker, ))
 ''')
 B('c04-benign-helper-extracted', 'C04', F,
   '''    def _unpack_variable_size_field(self, pkt, raw, offset=0, **k):
@@ -702,8 +713,8 @@ B('c18-benign-fstring-width', 'C18', F,
 
 # =========================================================================== C06
 S('c06-rfind', 'C06', F, '''        count = search_buffer.find(until_marker)
-        assert count >= 0''', '''        count = search_buffer.rfind(until_marker)
-        assert count >= 0''', 'C06-marker-search')
+        if count < 0:''', '''        count = search_buffer.rfind(until_marker)
+        if count < 0:''', 'C06-marker-search')
 S('c06-window-from-zero', 'C06', F,
   '''            max_next_offset_allowed = offset + self._search_buffer_length
             search_buffer = raw[offset:max_next_offset_allowed]
@@ -812,7 +823,10 @@ S('c06-assert-false-dropped', 'C06', F,
             else:
                 self.unpack = self._unpack_with_string_marker''', 'C06-strategy-selection')
 B('c06-benign-index', 'C06', F, '''        count = search_buffer.find(until_marker)
-        assert count >= 0''', '''        count = search_buffer.index(until_marker)''')
+        if count < 0:
+            raise Exception("The delimiter %r was not found" % (until_marker, ))
+''', '''        count = search_buffer.index(until_marker)
+''')
 B('c06-benign-arith-rewrite', 'C06', F,
   '''        next_offset = offset + count
         setattr(pkt, self.field_name, raw[offset:next_offset])
@@ -1235,9 +1249,9 @@ S('c14-child-at-zero', 'C14', SF,
             ) + offset''')
 S('c14-raw-find-absolute', 'C14', F,
   '''        count = search_buffer.find(until_marker)
-        assert count >= 0''',
+        if count < 0:''',
   '''        count = raw.find(until_marker) - offset
-        assert count >= 0''', 'R14-raw-relative-to-cursor')
+        if count < 0:''', 'R14-raw-relative-to-cursor')
 S('c14-driver-innermost-zero', 'C14', PK,
   '''        k['innermost-pkt-pos'] = offset
         try:
